@@ -976,94 +976,101 @@ pub fn run_c05(ctx: &Ctx) -> i32 {
 }
 
 /// Malformed bodies for a control field inside the reply set: inputs whose rejection C13/C02 make mandatory.
-fn malformed(schema: &Schema, pools: &Pools, rng: &mut Rng, key: &str) -> Option<Vec<u8>> {
+/// One candidate per kind (where the type has the shape for it).
+fn malformed(schema: &Schema, pools: &Pools, rng: &mut Rng, key: &str) -> Vec<(&'static str, Vec<u8>)> {
     let def = schema.get(key);
-    let (c, i) = def.cf?;
+    let Some((c, i)) = def.cf else { return vec![] };
     let codec = Codec::new(schema);
     let has_pos_mandatory = def.fields.iter().any(|f| f.tag.is_none() && f.card == refcodec::layout::Card::One && !matches!(f.enc, refcodec::layout::Enc::Cp437));
-    let mut cands: Vec<Vec<u8>> = vec![];
+    let mut cands: Vec<(&'static str, Vec<u8>)> = vec![];
     if has_pos_mandatory {
-        cands.push(vec![c, i, 0]); // mandatory positional field missing
+        cands.push(("missing-positional-field", vec![c, i, 0]));
     }
     // duplicate a non-repeated top-level tagged field; or cut a tagged field's value short
+    let mut have_dup = false;
+    let mut have_cut = false;
     for _ in 0..6 {
         let (bytes, _) = pools.pick(rng, key);
-        let (v, _) = codec.decode(def, bytes).ok()?;
-        let tree = codec.enc_top(def, &v).ok()?;
+        let Ok((v, _)) = codec.decode(def, bytes) else { continue };
+        let Ok(tree) = codec.enc_top(def, &v) else { continue };
         let mut t = tree.clone();
         if let Payload::Struct(s) = &mut t.payload {
             if let Some(gi) = (0..s.groups.len()).find(|gi| !s.groups[*gi].repeated) {
                 let g = s.groups[gi].clone();
                 s.groups.push(g);
-                if let Some(b) = t.bytes() {
-                    cands.push(b);
+                if let (Some(b), false) = (t.bytes(), have_dup) {
+                    cands.push(("duplicate-tag", b));
+                    have_dup = true;
                 }
                 // value cut short: keep only the tag (and length prefix) of the last non-repeated group, at the very end
                 let mut t2 = tree.clone();
                 if let Payload::Struct(s2) = &mut t2.payload {
                     let g = s2.groups.remove(gi);
-                    let mut body = s2.bytes()?;
-                    let eb = g.elems[0].bytes()?;
-                    if eb.len() > g.elems[0].tag.len() {
+                    let (Some(mut body), Some(eb)) = (s2.bytes(), g.elems[0].bytes()) else { continue };
+                    if eb.len() > g.elems[0].tag.len() && !have_cut {
                         body.extend(&eb[..eb.len() - 1]);
                         let mut p = vec![c, i];
-                        p.extend(apdu_len(body.len())?);
+                        let Some(l) = apdu_len(body.len()) else { continue };
+                        p.extend(l);
                         p.extend(body);
-                        cands.push(p);
+                        cands.push(("value-cut-short", p));
+                        have_cut = true;
                     }
                 }
             }
         }
     }
-    // a repeated element other than the first one announces more bytes than its container holds (everything around it,
-    // the enclosing lengths included, is consistent)
-    for _ in 0..6 {
-        let (bytes, _) = pools.pick(rng, key);
-        let (v, _) = codec.decode(def, bytes).ok()?;
-        let mut t = codec.enc_top(def, &v).ok()?;
-        fn break_later_element(n: &mut refcodec::codec::Node, rng: &mut Rng) -> bool {
-            let Payload::Struct(s) = &mut n.payload else { return false };
-            for g in s.groups.iter_mut() {
-                if g.repeated && g.elems.len() >= 2 {
-                    let k = 1 + rng.below(g.elems.len() as u64 - 1) as usize;
-                    let e = &mut g.elems[k];
-                    let plen = match &e.payload {
-                        Payload::Leaf(b) => b.len(),
-                        Payload::Struct(st) => st.bytes().map(|b| b.len()).unwrap_or(0),
-                    };
-                    if matches!(e.len, refcodec::layout::Len::Ber) {
-                        e.prefix_override = refcodec::codec::ber_len(plen + 1 + rng.below(40) as usize);
-                        return true;
-                    }
+    // an element of a repeated field other than the first one announces more bytes than its container holds (everything
+    // around it, the enclosing lengths included, is consistent).  Values with two and more elements are drawn afresh.
+    fn break_later_element(n: &mut refcodec::codec::Node, rng: &mut Rng) -> bool {
+        let Payload::Struct(s) = &mut n.payload else { return false };
+        for g in s.groups.iter_mut() {
+            if g.repeated && g.elems.len() >= 2 {
+                let k = 1 + rng.below(g.elems.len() as u64 - 1) as usize;
+                let e = &mut g.elems[k];
+                let plen = match &e.payload {
+                    Payload::Leaf(b) => b.len(),
+                    Payload::Struct(st) => st.bytes().map(|b| b.len()).unwrap_or(0),
+                };
+                if matches!(e.len, refcodec::layout::Len::Ber) {
+                    e.prefix_override = refcodec::codec::ber_len(plen + 1 + rng.below(40) as usize);
+                    return true;
                 }
             }
-            for g in s.groups.iter_mut() {
-                for e in g.elems.iter_mut() {
-                    if break_later_element(e, rng) {
-                        return true;
-                    }
-                }
-            }
-            for e in s.positional.iter_mut() {
+        }
+        for g in s.groups.iter_mut() {
+            for e in g.elems.iter_mut() {
                 if break_later_element(e, rng) {
                     return true;
                 }
             }
-            false
         }
+        for e in s.positional.iter_mut() {
+            if break_later_element(e, rng) {
+                return true;
+            }
+        }
+        false
+    }
+    let gen = Gen::new(schema, GenCfg { big: false, stray_pct: 0 });
+    for _ in 0..40 {
+        let v = gen.gen_struct(rng, def, Presence::Random, 0);
+        if codec.canonical(def, &v).is_err() {
+            continue;
+        }
+        let Ok(mut t) = codec.enc_top(def, &v) else { continue };
         if break_later_element(&mut t, rng) {
             if let Some(b) = t.bytes() {
-                cands.push(b);
+                if b.len() <= 900 {
+                    cands.push(("later-repeated-element-overruns", b));
+                    break;
+                }
             }
         }
     }
     // keep only those the reference decoder rejects for a reason the codec properties make mandatory
-    cands.retain(|b| matches!(codec.decode(def, b), Err(refcodec::codec::RefErr::Incomplete | refcodec::codec::RefErr::Duplicate(_) | refcodec::codec::RefErr::Missing(_))));
-    if cands.is_empty() {
-        None
-    } else {
-        Some(cands[rng.below(cands.len() as u64) as usize].clone())
-    }
+    cands.retain(|(_, b)| matches!(codec.decode(def, b), Err(refcodec::codec::RefErr::Incomplete | refcodec::codec::RefErr::Duplicate(_) | refcodec::codec::RefErr::Missing(_))));
+    cands
 }
 
 pub fn run_c06(ctx: &Ctx) -> i32 {
@@ -1071,7 +1078,7 @@ pub fn run_c06(ctx: &Ctx) -> i32 {
     let depth = ctx.by(4usize, 6usize);
     report.rule = format!("18 streams x every valid prefix of non-final replies of length <= {depth} x fault kinds {{NACK 84xx in place of a packet (all 256 codes at the acknowledgement position), the same followed by the regular script (a terminal that did not notice), control field outside the reply set, malformed body for a control field inside the set (rejected by the reference decoder as incomplete/duplicate/missing: top-level duplicate tag, value cut short, missing positional field, a later element of a repeated field announcing more than its container holds), packet truncated at every offset followed by end of stream, clean end of stream at the packet boundary}} at every position (the acknowledgement position included), chunking whole / byte-wise; for WriteFile additionally every fault kind right behind (or inside) a complete upload of small firmware/application files. Oracle over the event log: the valid prefix is processed exactly as in C05; after the first faulty byte was delivered there is no write at all, exactly one Err item, then End (no parking). Non-trivial = every fault scenario; distinct by hash of (stream, prefix bytes, fault bytes, position, chunking).");
     report.exhaustive = Some(true);
-    report.assumptions = vec!["malformed bodies are restricted to those whose rejection follows from C02/C13 (top-level duplicate tag, value cut short, missing positional field)".into()];
+    report.assumptions = vec!["malformed bodies are restricted to those whose rejection follows from C02/C13/C14 (top-level duplicate tag, value cut short, missing positional field, a later element of a repeated field overrunning its container)".into()];
     let schema = refcodec::zvt_schema();
     let pools = Pools::build(&schema, ctx.seed, 6);
     let threads = ctx.threads;
@@ -1160,9 +1167,14 @@ pub fn run_c06(ctx: &Ctx) -> i32 {
                         }
                     }
                     if !at_ack {
-                        let v = *rng.pick(&e.variants.iter().map(|v| v.1).collect::<Vec<_>>());
-                        if let Some(b) = malformed(&schema, &pools, &mut rng, v) {
-                            faults.push(Fault { kind: "malformed-body", at_ack, bytes: b, eof: false, followed_by: vec![] });
+                        // every variant of the reply set x every kind of malformed body its type has the shape for
+                        // (deeper prefixes: one variant, to keep the enumeration in proportion)
+                        let variants: Vec<&str> = if prefix_len <= 1 { e.variants.iter().map(|v| v.1).collect() } else { vec![*rng.pick(&e.variants.iter().map(|v| v.1).collect::<Vec<_>>())] };
+                        for v in variants {
+                            for (kind, b) in malformed(&schema, &pools, &mut rng, v) {
+                                r.count(&format!("malformed.{kind}"), 1);
+                                faults.push(Fault { kind: "malformed-body", at_ack, bytes: b, eof: false, followed_by: vec![] });
+                            }
                         }
                     }
                     for cut in 0..whole.len() {
